@@ -106,17 +106,77 @@ Proof.
   split; [assumption|]. intros m Hm. apply I' in Hm. apply (Permutation_in _ (Permutation_sym P)). apply in_or_app. now right.
 Qed.
 
-(* remove(), except the combination keep_children + with_clones (see
-   [op_remove_keep_clones_refuted] in Properties/C01.v) *)
+(* the up-front validation of remove(keep_children=True) *)
+Lemma has_dup_did_spec l : has_dup_did l = false <-> NoDup l.
+Proof.
+  induction l as [|d l IH]; cbn [has_dup_did]; [split; [constructor|reflexivity]|].
+  rewrite orb_false_iff, IH. split.
+  - intros [H1 H2]. constructor; [|assumption]. intros X.
+    assert (Y : existsb (did_eqb d) l = true) by (apply existsb_exists; exists d; split; [assumption|apply did_eqb_refl]). congruence.
+  - intros H. inversion H as [|x l' H1 H2]; subst. split; [|assumption].
+    destruct (existsb (did_eqb d) l) eqn:E; [|reflexivity]. apply existsb_exists in E. destruct E as (y & Hy & E).
+    apply did_eqb_eq in E. subst y. contradiction.
+Qed.
+
+Lemma contract_t_out V t : ~ In (rid t) V -> contract_t V t = [t].
+Proof.
+  destruct t as [id i ch]. cbn [contract_t rid]. intros H.
+  destruct (existsb (Nat.eqb id) V) eqn:E; [|reflexivity]. apply existsb_exists in E. destruct E as (y & Hy & E).
+  apply Nat.eqb_eq in E. subst y. contradiction.
+Qed.
+
+Lemma contract_t_in V t : In (rid t) V -> contract_t V t = flat_map (contract_t V) (rch t).
+Proof.
+  destruct t as [id i ch]. cbn [contract_t rid rch]. intros H.
+  destruct (existsb (Nat.eqb id) V) eqn:E; [reflexivity|].
+  assert (Y : existsb (Nat.eqb id) V = true) by (apply existsb_exists; exists id; split; [assumption|apply Nat.eqb_refl]). congruence.
+Qed.
+
+Lemma contract_out V l : (forall x, In x l -> ~ In (rid x) V) -> flat_map (contract_t V) l = l.
+Proof.
+  induction l as [|x l IH]; intros H; [reflexivity|]. cbn [flat_map]. rewrite contract_t_out, IH; [reflexivity| |].
+  - intros y Hy. apply H. now right.
+  - apply H. now left.
+Qed.
+
+Lemma keep_all_single t n : NoDup (ids (forest_of t)) -> keep_collides_all t [n] n = false -> keep_collides t n = false.
+Proof.
+  intros ND K. unfold keep_collides_all in K. unfold keep_collides.
+  destruct (node_loc n (forest_of t)) as [[[q0 i] l]|] eqn:E; [|reflexivity].
+  destruct (node_loc_spec n _ _ _ _ E) as (G & s & N & R & _). rewrite N.
+  destruct (nth_error_split l i N) as (a & b & -> & <-).
+  apply has_dup_did_spec in K.
+  assert (NL := NoDup_child_list q0 _ _ ND G). rewrite ids_app, ids_cons in NL.
+  assert (Hs : ~ In n (ids (rch s))).
+  { apply NoDup_app_r in NL. inversion NL as [|x l' H1 H2]; subst. intros X. apply H1. apply in_or_app. now left. }
+  assert (Hab : forall x, In x (a ++ b) -> rid x <> n).
+  { intros x Hx Ex. apply in_app_or in Hx. destruct Hx as [Hx|Hx].
+    - apply (NoDup_app_disj _ _ n NL); [|rewrite <- R; now left]. rewrite <- Ex. now apply incl_top_ids, in_map.
+    - apply NoDup_app_r in NL. inversion NL as [|y l' H1 H2]; subst. apply H1. apply in_or_app. right.
+      rewrite <- Ex. now apply incl_top_ids, in_map. }
+  rewrite flat_map_in_split in K. rewrite (contract_t_in [n] s) in K by (rewrite R; now left).
+  rewrite !contract_out in K.
+  2:{ intros x Hx [X|[]]. apply (Hab x); [apply in_or_app; now right|congruence]. }
+  2:{ intros x Hx [X|[]]. apply Hs. rewrite X. now apply incl_top_ids, in_map. }
+  2:{ intros x Hx [X|[]]. apply (Hab x); [apply in_or_app; now left|congruence]. }
+  destruct (existsb _ (rch s)) eqn:X; [|reflexivity]. exfalso.
+  apply existsb_exists in X. destruct X as (c & Hc & X). apply existsb_exists in X. destruct X as (o & Ho & X).
+  apply andb_true_iff in X. destruct X as [X1 X2]. apply negb_true_iff, Nat.eqb_neq in X1. apply did_eqb_eq in X2.
+  rewrite !map_app in K. apply in_app_or in Ho. destruct Ho as [Ho|[<-|Ho]]; [| congruence |].
+  - apply (NoDup_app_disj _ _ (rdid c) K); [rewrite <- X2; now apply in_map|]. apply in_or_app. left. now apply in_map.
+  - apply NoDup_app_r in K. apply (NoDup_app_disj _ _ (rdid c) K); [now apply in_map|rewrite <- X2; now apply in_map].
+Qed.
+
+(* remove(), except the combination keep_children + with_clones *)
 Theorem WFw_op_remove w ti n keep wc : WFw w -> keep && wc = false -> WFw (snd (op_remove w ti n keep wc)).
 Proof.
   intros H Hk. unfold op_remove. destruct (get_tree w ti) as [t|] eqn:Gt; [|exact H].
   destruct (did_of n (forest_of t)) as [d|]; [|exact H].
   assert (Wt := WFw_tree w ti t H Gt).
-  match goal with |- context [if ?c then (Err ENotImpl, w) else _] => destruct c end; [exact H|].
   match goal with |- context [if ?c then (Err EUnique, w) else _] => destruct c eqn:Col end; [exact H|].
   cbn [snd]. unfold put_tree. destruct keep.
   - cbn [andb] in Hk. subst wc. cbn [andb] in Col. cbn [existsb] in Col. rewrite orb_false_r in Col.
+    apply keep_all_single in Col; [|apply Wt].
     cbn [fold_left]. destruct (live t n).
     + cbn [remove_one]. destruct (remove_keep t n) as [a|] eqn:E.
       * destruct (WF_remove_keep t n a Wt Col E) as (Wa & P). apply (WFw_put w ti t); auto.
@@ -199,6 +259,7 @@ Proof.
   destruct (is_desc_or_self n target (forest_of t)); [exact H|].
   destruct (negb (before_ok (norm_before b) tch)); [exact H|].
   match goal with |- context [if ?c then (Err EUnique, w) else _] => destruct c eqn:U end; [exact H|].
+  match goal with |- context [if ?c then (Ok [], w) else _] => destruct c end; [exact H|].
   destruct (move_in t n target (norm_before b)) as [t'|] eqn:M; [|exact H].
   cbn [snd]. unfold put_tree. assert (Wt := WFw_tree w ti t H Gt).
   destruct (WF_move_in t n target _ t' s tch cur Wt M Gn Gc Gp U) as (W' & P).
